@@ -152,5 +152,12 @@ def bullyElected (key : α → Nat) (self : α) (candidates : List α) (claimant
   | none => self
   | some r => if bullyIdx s r < bullyIdx s self || r = self then r else self
 
+/-- the INTENDED outcome (what C11 asks for: culprits take no part in the new election): a claimant that is not among
+    the candidates is ignored. Differs from `bullyElected` exactly on the known finding C11-bully-unlisted-claimant. -/
+def bullyElectedListed (key : α → Nat) (self : α) (candidates : List α) (claimant : Option α) : α :=
+  match claimant with
+  | some r => if r ∈ candidates then bullyElected key self candidates (some r) else self
+  | none => self
+
 end
 end Sygma.C11
